@@ -195,10 +195,14 @@ pub fn prepack_a<A: Alloc, LhsT, RhsT, OutT>(
     let mut data = PackingBuffer::new();
     let uninit_data = data.alloc_in(alloc, total_size, layout.align());
 
-    for (col_block, block_data) in
-        range_chunks(0..a.cols(), depth_block).zip(uninit_data.chunks_mut(layout.size()))
-    {
-        kernel.pack_a_block(block_data, a, 0..a.rows(), col_block, None);
+    // If the matrix is empty, there is nothing to pack and the block size is
+    // zero.
+    if total_size > 0 {
+        for (col_block, block_data) in
+            range_chunks(0..a.cols(), depth_block).zip(uninit_data.chunks_mut(layout.size()))
+        {
+            kernel.pack_a_block(block_data, a, 0..a.rows(), col_block, None);
+        }
     }
 
     // Safety: We used `pack_a_block` to initialize `total_size` bytes
@@ -250,10 +254,14 @@ pub fn prepack_b<A: Alloc, LhsT, RhsT, OutT>(
     let mut data = PackingBuffer::new();
     let uninit_data = data.alloc_in(alloc, total_size, layout.align());
 
-    for (row_block, block_data) in
-        range_chunks(0..b.rows(), depth_block).zip(uninit_data.chunks_mut(layout.size()))
-    {
-        kernel.pack_b_block(block_data, b, row_block, 0..b.cols(), None);
+    // If the matrix is empty, there is nothing to pack and the block size is
+    // zero.
+    if total_size > 0 {
+        for (row_block, block_data) in
+            range_chunks(0..b.rows(), depth_block).zip(uninit_data.chunks_mut(layout.size()))
+        {
+            kernel.pack_b_block(block_data, b, row_block, 0..b.cols(), None);
+        }
     }
 
     // Safety: We used `pack_b_block` to initialize `layout.size` bytes.
